@@ -57,24 +57,53 @@ LEVEL_TEXT = (
     "the loop lives (also in a generator helper, with yields between the statements), or a reviewed progress maker identified by what it calls was asked for more "
     "(MultipartDecoder.next_event; a read from the request stream) - and between two requests to such a maker the loop is "
     "left when it is exhausted (the event is NEED_DATA; the read is "
-    "empty). (R7.3) the lenient decoders named by the property keep their fallbacks. Not decided: operations outside "
+    "empty). (R7.3) the lenient decoders named by the property keep their fallbacks; and for every operation that makes text "
+    "from bytes or percent-escapes under an errors handler (bytes.decode / str(b, enc, errors) in any argument spelling, "
+    "urllib.parse.unquote / unquote_plus / parse_qsl / parse_qs, codecs.decode) in a function reachable from the entry "
+    "points or from the two Request constructors, the *value* of the handler that reaches it (constant, conditional "
+    "expression, local through reaching definitions, module constant, parameter default and the arguments of every call "
+    "site of a private function) is one under which the result holds no lone surrogate: strict (raises: R7.1's business), "
+    "replace, ignore, backslashreplace, or a handler registered by the package whose function hands back percent-quoted or "
+    "constant surrogate-free text; surrogateescape / surrogatepass (lone surrogates, on which every later str.encode() to "
+    "UTF-8 and urllib.parse.quote() raise UnicodeEncodeError - the premise of the model entry 'utf-8 is total'), the "
+    "encode-only handlers xmlcharrefreplace / namereplace (TypeError on the first undecodable byte) and unknown names "
+    "(LookupError) are violations, a handler that is not a finite set of constant texts is ANALYSIS-ERROR (a decode from "
+    "latin-1 never asks its handler and is skipped). _wsgi_decoding_dance's own handler must in addition be non-strict. "
+    "(R7.4) every regular expression constant (module-level re.compile constant or constant pattern handed to a function "
+    "of re) applied in those functions is parsed (re._parser; nothing is matched) and has no unbounded backtracking repeat "
+    "R{n,} such that (1) one alternative of R's body, taken as a whole, can match c*j for arbitrarily large j for some "
+    "latin-1 character c through a repeat that backtracks (a nested X+ / X* / X{m,} over a class with c, the other items of "
+    "the alternative able to match c or nothing: (x+)*, (x*)*, (xx*)+, (a|b+)*, ([^q]+|..)*), so that a run c*n is cut into "
+    "rounds in exponentially many ways, and (2) the same concatenation requires after R an item of width >= 1 that cannot "
+    "begin with c, or the end of the text ($ / \\Z / use with fullmatch) behind items none of which can take a character "
+    "that R's body cannot take either - then every cut is tried before the match fails: time doubles with n (the classic "
+    "catastrophic pattern; witness <prefix> + c*n). This is a sufficient condition for exponential time, not a proof of "
+    "its absence. Not decided: operations outside "
     "the model (variable-key mapping lookups, attribute errors other than Optional regex matches, sizes whose origin is "
     "not provably a parsed client integer; a parsed datetime that reaches an operation through a container, unpacking of a call's result "
     "or an attribute of another object such as IfRange.date; TypeError from mixing naive and aware datetimes; application-"
-    "supplied datetimes or date strings, e.g. last_modified of is_resource_modified), termination of library regex "
-    "engines, resource exhaustion in general."
+    "supplied datetimes or date strings, e.g. last_modified of is_resource_modified), lone surrogates from sources other than a decode's errors handler (chr(), escapes in literals, json, "
+    "utf-16/utf-7/unicode_escape codecs); the running time of regular expressions beyond R7.4: ambiguity between "
+    "different alternatives ((a|a)*, (a|aa)*), between the tail of one round and the head of the next ((\\s*;\\s*)+), runs of "
+    "a multi-character unit ((?:ab)+)+, repeats inside atomic groups or behind look-arounds / back references, polynomial "
+    "(quadratic) backtracking, patterns built at run time (the multipart boundary patterns; they are listed in a note), "
+    "the assumption in R7.4 that the engine gets to try the concatenation at the start of such a run (an earlier "
+    "alternative that always succeeds would hide it); resource exhaustion in general."
 )
 TRUSTED = [
     "CPython ast and the builtin exception class hierarchy",
     "the library model table (wzsa/effects.py MODEL_DOC), each entry a documented fact about CPython 3.12",
     "name resolution of calls by the loader (unresolved dynamic calls are listed in the evidence)",
     "fixed-arity tuple annotations of parameters (tuple[str, int | None]) for server / application supplied values",
+    "re._parser's syntax tree of a pattern is the one the engine compiles; the engine backtracks through nested repeats without memoising (CPython 3.12 Modules/_sre)",
+    "what the builtin codec error handlers put into a text (Python/codecs.c): replace U+FFFD, ignore nothing, backslashreplace ASCII, surrogateescape U+DC80..U+DCFF",
 ]
 ASSUMPTIONS = [
     "input model: client-controlled values are latin-1 str without control characters; server-controlled environ keys (wsgi.*, SERVER_NAME/PORT, SCRIPT_NAME, REQUEST_METHOD) are present and well-formed",
     "application-supplied callables (type= converters, cls= factories, user_agent_class) are outside the claim",
     "RecursionError / MemoryError are out of model, except the size kind above",
     "containers are followed by their local name: aliasing of a list / dict under a second name inside one function is not tracked (the list handed to the range constructor is followed through plain aliases, copies and helpers)",
+    "R7.4: some text brings the engine to the repeat at the start of a run (the part of the pattern before it is satisfiable and no earlier alternative always succeeds)",
     "R7.2: a cursor that strictly moves in one direction and a text sliced from a lower bound >= 1 count as progress (termination then needs the loop's own bound test, which is not checked)",
 ]
 
@@ -135,14 +164,17 @@ def run(ctx: Ctx) -> None:
     repo = ctx.repo
     ctx.rule("R7.1", "no exception outside werkzeug's HTTPException family escapes an entry point: every raising site reachable from it is covered by a handler on the path, a dominating guard idiom, or a reviewed role whose premise is re-established on the current code")
     ctx.rule("R7.2", "every while loop reachable from an entry point makes progress on every path through its body")
-    ctx.rule("R7.3", "the lenient decoders keep their fallbacks: (ValueError, TypeError) around conversions in _DictAccessorProperty.__get__ and TypeConversionDict.get; errors='werkzeug.url_quote' on both parse_qsl calls with that handler registered; _wsgi_decoding_dance decodes with errors='replace'")
+    ctx.rule("R7.4", "no regular expression constant applied on the request path has an unbounded repeat whose body can match a run c*n of one character as one round or as several while what must follow the repeat cannot match after the run (exponential backtracking)")
+    ctx.rule("R7.3", "the lenient decoders keep their fallbacks: (ValueError, TypeError) around conversions in _DictAccessorProperty.__get__ and TypeConversionDict.get; errors='werkzeug.url_quote' on both parse_qsl calls with that handler registered; _wsgi_decoding_dance decodes with errors='replace'; the value of the errors handler that reaches any decode / unquote on the request path is one that puts no lone surrogate into the text (not surrogateescape / surrogatepass, not an encode-only or unknown handler)")
 
     # registered codec error handlers
     registered = set()
+    registered_fn: dict[str, tuple[t.Any, ast.AST | None]] = {}
     for m in repo.modules.values():
         for c in astq.calls(m.tree):
             if dotted(c.func) in ("codecs.register_error",) and c.args and astq.const_str(c.args[0]):
                 registered.add(astq.const_str(c.args[0]))
+                registered_fn[astq.const_str(c.args[0])] = (m, c.args[1] if len(c.args) > 1 else astq.kwarg(c, "error_handler"))
     eff = Effects(repo, registered)
     folder = Folder(repo)
     ok_silent, dead_raises, why_silent = p_form_parser_silent(ctx, folder)
@@ -177,6 +209,9 @@ def run(ctx: Ctx) -> None:
         return flow.client_datetime(fi, recv, node), flow.aware_datetime(fi, recv, node)
 
     eff.dt_hook = dt_hook
+    reach_ext = _extended_reach(eff, roots)
+    texts = _Texts(eff, flow, folder, reach_ext)
+    eff.text_hook = lambda fi, call, e: texts.of(fi, e, call)
     esc = eff.escapes(roots)
     for f in eff.reach.values():
         ctx.saw(f)
@@ -241,7 +276,8 @@ def run(ctx: Ctx) -> None:
         "unresolved_calls": {k: v for k, v in eff.unresolved.items() if v and k in eff.reach},
     }
     _r72(an)
-    _r73(ctx, eff, folder, registered)
+    _r73(ctx, eff, folder, registered, flow, texts, registered_fn)
+    _r74(ctx, eff, flow, folder, reach_ext)
 
 
 # ---------------------------------------------------------------------
@@ -460,6 +496,275 @@ def _bound_to_read(an: A, f: FuncInfo, pname: str) -> bool:
 
 
 # ---------------------------------------------------------------------
+# R7.4 regular expressions: no unbounded repeat whose body can split one run of a character in more than one way
+
+
+try:  # the regex syntax tree of the stdlib (parsing only - nothing is matched)
+    import re._constants as _sc  # type: ignore[import-not-found]
+    import re._parser as _sp  # type: ignore[import-not-found]
+except ImportError:  # pragma: no cover
+    import sre_constants as _sc  # type: ignore[no-redef]
+    import sre_parse as _sp  # type: ignore[no-redef]
+import re as _re_mod
+
+from ..fold import RegexConst, class_of_items
+
+_REPEATS = (_sc.MAX_REPEAT, _sc.MIN_REPEAT)
+_POSSESSIVE = getattr(_sc, "POSSESSIVE_REPEAT", None)
+_ATOMIC = getattr(_sc, "ATOMIC_GROUP", None)
+_RX_METHODS = {"match", "fullmatch", "search", "sub", "subn", "split", "findall", "finditer"}
+_ALPHABET = 256  # the input model: client text is latin-1
+
+
+_CLASS_MEMO: dict[tuple[int, int, bool], tuple[t.Any, set[int] | None]] = {}
+
+
+def _char_class(node, flags: int, is_bytes: bool) -> set[int] | None:
+    """the characters (< 256) a width-1 node matches; None for anything that is not one character wide."""
+    key = (id(node), flags, is_bytes)
+    hit = _CLASS_MEMO.get(key)
+    if hit is not None and hit[0] is node:
+        return hit[1]
+    res = _char_class0(node, flags, is_bytes)
+    _CLASS_MEMO[key] = (node, res)
+    return res
+
+
+def _char_class0(node, flags: int, is_bytes: bool) -> set[int] | None:
+    op, av = node
+    try:
+        if op is _sc.IN:
+            return class_of_items(av, flags, is_bytes, _ALPHABET)
+        if op is _sc.LITERAL:
+            return class_of_items([(_sc.LITERAL, av)], flags, is_bytes, _ALPHABET)
+        if op is _sc.NOT_LITERAL:
+            return class_of_items([(_sc.NEGATE, None), (_sc.LITERAL, av)], flags, is_bytes, _ALPHABET)
+        if op is _sc.ANY:
+            out = set(range(_ALPHABET))
+            if not flags & _re_mod.S:
+                out.discard(10)
+            return out
+    except Exception:
+        return None
+    return None
+
+
+class _Run(t.NamedTuple):
+    empty: bool  # can match the empty text
+    some: bool  # can match c^j for some j >= 1 (and nothing but c's)
+    unbounded: bool  # can match c^j for arbitrarily large j, through a repeat that backtracks
+
+
+def _run_of(seq, c: int, flags: int, is_bytes: bool) -> _Run:
+    """which texts made of the single character c the sequence can match as a whole.  Constructs that are not understood
+    (assertions, back references, conditionals) match nothing here: the rule stays silent about them."""
+    empty, some, unb = True, False, False
+    for node in seq:
+        r = _run_of_node(node, c, flags, is_bytes)
+        if not (r.empty or r.some):
+            return _Run(False, False, False)
+        some = some or r.some
+        unb = unb or r.unbounded
+        empty = empty and r.empty
+    return _Run(empty, some, unb and some)
+
+
+def _run_of_node(node, c: int, flags: int, is_bytes: bool) -> _Run:
+    op, av = node
+    cls = _char_class(node, flags, is_bytes)
+    if cls is not None:
+        return _Run(False, c in cls, False)
+    if op is _sc.SUBPATTERN:
+        add, rem = av[1], av[2]
+        return _run_of(av[3], c, (flags | add) & ~rem, is_bytes)
+    if op is _sc.BRANCH:
+        rs = [_run_of(b, c, flags, is_bytes) for b in av[1]]
+        return _Run(any(r.empty for r in rs), any(r.some for r in rs), any(r.unbounded for r in rs))
+    if op in _REPEATS or (op is _POSSESSIVE and _POSSESSIVE is not None):
+        lo, hi, body = av
+        r = _run_of(body, c, flags, is_bytes)
+        if hi == 0:
+            return _Run(True, False, False)
+        backtracks = op in _REPEATS
+        return _Run(lo == 0 or r.empty, r.some, r.some and backtracks and (hi is _sc.MAXREPEAT or r.unbounded))
+    if _ATOMIC is not None and op is _ATOMIC:
+        r = _run_of(av, c, flags, is_bytes)
+        return _Run(r.empty, r.some, False)
+    return _Run(False, False, False)
+
+
+def _may_start_with(node, c: int, flags: int, is_bytes: bool) -> bool:
+    """may a match of the node begin with c?  True when not sure."""
+    op, av = node
+    cls = _char_class(node, flags, is_bytes)
+    if cls is not None:
+        return c in cls
+    if op is _sc.SUBPATTERN:
+        return _seq_may_start_with(av[3], c, (flags | av[1]) & ~av[2], is_bytes)
+    if op is _sc.BRANCH:
+        return any(_seq_may_start_with(b, c, flags, is_bytes) for b in av[1])
+    if op in _REPEATS or (_POSSESSIVE is not None and op is _POSSESSIVE):
+        return _seq_may_start_with(av[2], c, flags, is_bytes)
+    if _ATOMIC is not None and op is _ATOMIC:
+        return _seq_may_start_with(av, c, flags, is_bytes)
+    return True
+
+
+def _min_width(node) -> int:
+    sub = _sp.SubPattern(_sp.State(), [node])
+    try:
+        return int(sub.getwidth()[0])
+    except Exception:
+        return 0
+
+
+def _zero_width(node) -> bool:
+    return node[0] in (_sc.AT, _sc.ASSERT, _sc.ASSERT_NOT)
+
+
+def _seq_may_start_with(seq, c: int, flags: int, is_bytes: bool) -> bool:
+    for node in seq:
+        if _zero_width(node):
+            if node[0] is not _sc.AT:
+                return True  # a look-around: not understood
+            continue
+        if _may_start_with(node, c, flags, is_bytes):
+            return True
+        if _min_width(node) > 0:
+            return False
+    return False
+
+
+def _explosive_repeats(rx: RegexConst, whole: bool) -> list[str]:
+    """descriptions (with a witness) of the unbounded, backtracking repeats R{n,} of the pattern such that
+    (1) one alternative of the body can match c^j for arbitrarily large j for some character c - so a run c^n is cut into
+    rounds of the repeat in exponentially many ways - and (2) what has to follow the repeat inside the same concatenation
+    (a mandatory item that cannot begin with c, or the end of the text with every item in between unable to take a
+    character z the body cannot take either) fails after the run: the engine tries every cut before it gives up.
+    `whole`: the pattern is used with fullmatch somewhere (the end of the text is required after it)."""
+    is_bytes = isinstance(rx.pattern, bytes)
+    tree = rx.parsed()
+    flags0 = tree.state.flags
+    out: list[str] = []
+
+    def show(cs: t.Iterable[int]) -> str:
+        c = next((x for x in (ord("a"), ord("A"), ord("0"), ord(" ")) if x in cs), None)
+        return chr(c if c is not None else sorted(cs)[0])
+
+    def visit(seq, flags: int, after: list[tuple[list, int]]) -> None:
+        """after: what follows this sequence further out, innermost first, as (remaining nodes, flags)."""
+        nodes = list(seq)
+        for i, node in enumerate(nodes):
+            op, av = node
+            rest = [(nodes[i + 1 :], flags)] + after
+            if op is _sc.SUBPATTERN:
+                visit(av[3], (flags | av[1]) & ~av[2], rest)
+            elif op is _sc.BRANCH:
+                for b in av[1]:
+                    visit(b, flags, rest)
+            elif _ATOMIC is not None and op is _ATOMIC:
+                continue  # nothing inside is tried a second way
+            elif op in (_sc.ASSERT, _sc.ASSERT_NOT):
+                visit(av[1], flags, [])
+            elif op is _sc.GROUPREF_EXISTS:
+                visit(av[1], flags, rest)
+                if av[2]:
+                    visit(av[2], flags, rest)
+            elif op in _REPEATS or (_POSSESSIVE is not None and op is _POSSESSIVE):
+                lo, hi, body = av
+                if op in _REPEATS and hi is _sc.MAXREPEAT:
+                    check(body, flags, rest)
+                # the next round of this repeat is not taken as a follower: if it fails the repeat just ends
+                visit(body, flags, rest if op in _REPEATS else [])
+
+    def alternatives(body, flags: int) -> list[tuple[list, int]]:
+        nodes = list(body)
+        if len(nodes) == 1 and nodes[0][0] is _sc.SUBPATTERN:
+            av = nodes[0][1]
+            return alternatives(av[3], (flags | av[1]) & ~av[2])
+        if len(nodes) == 1 and nodes[0][0] is _sc.BRANCH:
+            return [x for b in nodes[0][1][1] for x in alternatives(b, flags)]
+        return [(nodes, flags)]
+
+    def check(body, flags: int, rest: list[tuple[list, int]]) -> None:
+        runs: set[int] = set()
+        for alt, fl in alternatives(body, flags):
+            for c in range(_ALPHABET):
+                if _run_of(alt, c, fl, is_bytes).unbounded:
+                    runs.add(c)
+        if not runs:
+            return
+        # (2) a mandatory follower that cannot begin with c / the end of the text behind items that cannot take z
+        followers = [(n, fl) for ns, fl in rest for n in ns]
+        mandatory = next(((n, fl) for n, fl in followers if not _zero_width(n) and _min_width(n) > 0), None)
+        if mandatory is not None:
+            stuck = {c for c in runs if not _may_start_with(mandatory[0], c, mandatory[1], is_bytes)}
+            if stuck:
+                c = show(stuck)
+                out.append(f"the body of an unbounded repeat can match {c!r}*n as one round or as several (the repeat nests an unbounded repeat over a class with {c!r}), and the item that must follow cannot begin with {c!r}: on <prefix> + {c!r}*n every cut of the run is tried before the match fails (time doubles with n)")
+            return
+        ends = whole or any(n[0] is _sc.AT and n[1] in (_sc.AT_END, _sc.AT_END_STRING) for n, _ in followers)
+        if ends and all(n[0] is _sc.AT or not _zero_width(n) for n, _ in followers):
+            poison = [z for z in range(_ALPHABET) if z != 10 and not _seq_may_start_with(body, z, flags, is_bytes) and not any(_may_start_with(n, z, fl, is_bytes) for n, fl in followers if not _zero_width(n))]
+            if poison:
+                c, z = show(runs), show(poison)
+                out.append(f"the body of an unbounded repeat can match {c!r}*n as one round or as several, and the end of the text must follow: on <prefix> + {c!r}*n + {z!r} every cut of the run is tried before the match fails (time doubles with n)")
+
+    visit(tree, flags0, [])
+    return out
+
+
+def _r74(ctx: Ctx, eff: Effects, flow: Flow, folder: Folder, reach: dict[str, FuncInfo]) -> None:
+    """every regular expression constant applied on the request path (module-level re.compile constants and constant
+    patterns handed to the functions of `re`)."""
+    repo = ctx.repo
+    used: dict[tuple[str, str], tuple[RegexConst, FuncInfo, ast.AST, set[str], str]] = {}
+    dynamic: set[str] = set()
+    for fq in sorted(reach):
+        f = reach[fq]
+        li = f.module.local_imports(f.node)
+        for c in walk_no_nested(f.node):
+            if not (isinstance(c, ast.Call) and isinstance(c.func, ast.Attribute) and c.func.attr in _RX_METHODS):
+                continue
+            recv = c.func.value
+            d = dotted(recv)
+            if d and repo.resolve(f.module, d, li) == "re":
+                # re.match(pattern, text, flags): a constant pattern
+                try:
+                    pat = folder.expr(f.module, c.args[0]) if c.args else None
+                    fl = astq.arg_or_kw(c, {"sub": 4, "subn": 4, "split": 3}.get(c.func.attr, 2), "flags")
+                    flv = int(folder.expr(f.module, fl)) if fl is not None else 0
+                except Exception:
+                    pat, flv = None, 0
+                if not isinstance(pat, (str, bytes)):
+                    dynamic.add(f"{f.qualname}: {norm(c)[:40]}")
+                    continue
+                rx, label = RegexConst(pat, flv), f"{pat!r}"[:40]
+            else:
+                rx0 = flow.fold_regex(f, recv)
+                if rx0 is None:
+                    if d and d.rsplit(".", 1)[-1].lower().endswith(("_re", "regex", "pattern")):
+                        dynamic.add(f"{f.qualname}: {d}")
+                    continue
+                rx, label = rx0, (d or norm(recv)).rsplit(".", 1)[-1]
+            k = (repr(rx.pattern), str(rx.flags))
+            if k not in used:
+                used[k] = (rx, f, c, set(), label)
+            used[k][3].add(c.func.attr)
+    ctx.floor("R7.4", "regular expression constants applied on the request path", len(used), 10)
+    for k in sorted(used):
+        rx, f, c, methods, label = used[k]
+        try:
+            bad = _explosive_repeats(rx, "fullmatch" in methods)
+        except Exception as e:  # the pattern does not parse / a construct the walker does not know
+            raise AnalysisError(f"C07 R7.4: the regular expression {label} could not be analysed: {e}")
+        ctx.ob("R7.4", f"{label}: no unbounded repeat can cut one run of a character into rounds in more than one way before a part that must follow fails", not bad,
+               "; ".join(bad) if bad else f"{rx.pattern!r}"[:120] + f" (applied with {sorted(methods)}): no such repeat", f, c, f"regex {label} has no exponentially ambiguous repeat")
+    if dynamic:
+        ctx.note("R7.4: regular expressions built at run time are not analysed: " + "; ".join(sorted(dynamic))[:400])
+
+
+# ---------------------------------------------------------------------
 # R7.3
 
 
@@ -484,8 +789,261 @@ def _conversion_calls(f: FuncInfo, kind: str, name: str) -> list[ast.Call]:
     return out
 
 
-def _r73(ctx: Ctx, eff: Effects, folder: Folder, registered: set[str]) -> None:
+# errors handlers of the codecs machinery by what they do when *decoding* meets an undecodable byte (CPython
+# Python/codecs.c): these put U+FFFD / nothing / the ASCII text \\xNN into the result - never a lone surrogate
+DECODE_CLEAN = {"replace", "ignore", "backslashreplace"}
+# these turn the undecodable byte 0xNN into the lone surrogate U+DCNN (surrogateescape) or let encoded surrogates through
+# (surrogatepass): the text can then not be encoded as UTF-8 any more (str.encode, urllib.parse.quote, ... raise UnicodeEncodeError)
+SURROGATE_MAKERS = {"surrogateescape", "surrogatepass"}
+# functions of the stdlib that percent-decode / decode to text under an `errors` handler: fq -> (position of errors, default)
+TEXT_DECODERS = {
+    "urllib.parse.unquote": (2, "replace"), "urllib.parse.unquote_plus": (2, "replace"),
+    "urllib.parse.parse_qsl": (4, "replace"), "urllib.parse.parse_qs": (4, "replace"), "codecs.decode": (2, "strict"),
+}
+LATIN1 = ("latin1", "latin-1", "iso-8859-1", "iso8859-1", "l1", "latin")
+
+
+class _Texts:
+    """the constant texts an expression may evaluate to (the errors handler that reaches a decode): constants, conditional
+    expressions, `a or b`, locals through their reaching definitions, parameters through their defaults and the arguments
+    of every call site (over the functions reachable from the entry points and the request constructors), module
+    constants.  For a public function the default and the package's own call sites count (an application's own argument
+    is outside the property's input domain).  None = not a known finite set of texts."""
+
+    def __init__(self, eff: Effects, flow: Flow, folder: Folder, reach: dict[str, FuncInfo]):
+        self.eff, self.flow, self.folder, self.reach = eff, flow, folder, reach
+        self._callers: dict[str, list[tuple[FuncInfo, ast.AST]]] | None = None
+
+    def callers(self, g: FuncInfo) -> list[tuple[FuncInfo, ast.AST]]:
+        if self._callers is None:
+            self._callers = {}
+            for f in self.reach.values():
+                for h, n in self.eff.callees(f):
+                    self._callers.setdefault(h.fq, []).append((f, n))
+        return self._callers.get(g.fq, [])
+
+    def of(self, fi: FuncInfo, e: ast.AST | None, at: ast.AST, depth: int = 0) -> set[str] | None:
+        if e is None or depth > 6:
+            return None
+        if isinstance(e, ast.Constant):
+            return {e.value} if isinstance(e.value, str) else None
+        if isinstance(e, ast.IfExp):
+            a, b = self.of(fi, e.body, at, depth + 1), self.of(fi, e.orelse, at, depth + 1)
+            return None if a is None or b is None else a | b
+        if isinstance(e, ast.BoolOp) and isinstance(e.op, ast.Or):
+            parts = [self.of(fi, v, at, depth + 1) for v in e.values]
+            tail = parts[-1]
+            if tail is None:
+                return None
+            out = set(tail)
+            for p_ in parts[:-1]:
+                if p_ is not None:
+                    out |= {x for x in p_ if x}  # a non-empty constant wins, an unknown / None operand falls through
+            return out
+        if isinstance(e, ast.NamedExpr):
+            return self.of(fi, e.value, at, depth + 1)
+        if isinstance(e, ast.Name):
+            node = self.flow.node(fi, at)
+            defs = self.flow.rd(fi).reaching(node, e.id) if node is not None else frozenset()
+            if not defs:
+                if e.id in fi.params or astq.assigns_to(fi.node, e.id):
+                    return None
+                try:
+                    v = self.folder.name(fi.module, e.id)
+                except Exception:
+                    return None
+                return {v} if isinstance(v, str) else None
+            out: set[str] = set()
+            for d in defs:
+                if d.kind in ("assign", "walrus") and d.index is None and d.value is not None and d.stmt is not None:
+                    got = self.of(fi, d.value, d.stmt, depth + 1)
+                elif d.kind == "param":
+                    got = self._param(fi, d.name, depth + 1)
+                else:
+                    got = None
+                if got is None:
+                    return None
+                out |= got
+            return out
+        d_ = dotted(e)
+        if d_:
+            fq = self.eff.repo.resolve(fi.module, d_, self.flow.local_imports(fi))
+            if fq and fq.startswith("werkzeug."):
+                mn, _, nm = fq.rpartition(".")
+                try:
+                    v = self.folder.name(self.eff.repo.module(mn), nm)
+                except Exception:
+                    return None
+                return {v} if isinstance(v, str) else None
+        return None
+
+    def _param(self, g: FuncInfo, pname: str, depth: int) -> set[str] | None:
+        a = g.node.args  # type: ignore[attr-defined]
+        if (a.vararg and a.vararg.arg == pname) or (a.kwarg and a.kwarg.arg == pname):
+            return None
+        cal = self.callers(g)
+        out: set[str] = set()
+        public = not g.name.startswith("_") or (g.name.startswith("__") and g.name.endswith("__"))
+        if public or not cal:
+            # a public function: what the application itself passes is its own business (outside the property's input
+            # domain); the package's own calls and the default are what the request path runs with
+            pos = [x.arg for x in a.posonlyargs + a.args]
+            dflt = None
+            if pname in pos:
+                j = pos.index(pname) - (len(pos) - len(a.defaults))
+                dflt = a.defaults[j] if j >= 0 else None
+            elif pname in [x.arg for x in a.kwonlyargs]:
+                dflt = a.kw_defaults[[x.arg for x in a.kwonlyargs].index(pname)]
+            if dflt is None and not cal:
+                return None
+            if dflt is not None:
+                got = self.of(g, dflt, g.node, depth + 1)
+                if got is None:
+                    return None
+                out |= got
+        for f, n in cal:
+            b = self.flow.bind(g, n, pname)
+            if b is None:
+                return None
+            got = self.of(g if b[0] == "default" else f, b[1], g.node if b[0] == "default" else n, depth + 1)
+            if got is None:
+                return None
+            out |= got
+        return out
+
+
+def _handler_replacement_clean(repo, registered_fn: dict, name: str) -> tuple[bool | None, str]:
+    """a handler registered with codecs.register_error: is the replacement text it hands back free of lone surrogates?
+    Yes when every return is `(text, position)` with text a constant or the result of urllib.parse.quote* (ASCII)."""
+    if name not in registered_fn:
+        return None, "not registered in the package"
+    m, fe = registered_fn[name]
+    d = dotted(fe) if fe is not None else None
+    fq = repo.resolve(m, d) if d else None
+    f = repo.try_func(fq) if fq and fq.startswith("werkzeug.") else None
+    if f is None:
+        return None, f"the function registered as {name!r} is not a function of the package"
+    rets = astq.returns_of(f.node)
+    if not rets:
+        return None, f"{f.qualname} has no return"
+    li = f.module.local_imports(f.node)
+    for r in rets:
+        v = r.value
+        if not (isinstance(v, ast.Tuple) and len(v.elts) == 2):
+            return None, f"{f.qualname}: `{norm(r)[:50]}` is not a (text, position) pair"
+        txt = v.elts[0]
+        seen = 0
+        while isinstance(txt, ast.Name) and seen < 4:
+            vals = [x for _, x in astq.assigns_to(f.node, txt.id)]
+            if len(vals) != 1 or vals[0] is None:
+                return None, f"{f.qualname}: the replacement text `{txt.id}` is bound in a shape that is not understood"
+            txt, seen = vals[0], seen + 1
+        if isinstance(txt, ast.Constant) and isinstance(txt.value, str):
+            if any(0xD800 <= ord(ch) <= 0xDFFF for ch in txt.value):
+                return False, f"{f.qualname} hands back a constant with a lone surrogate"
+            continue
+        if isinstance(txt, ast.Call):
+            cfq = repo.resolve(f.module, dotted(txt.func) or "?", li)
+            if cfq in ("urllib.parse.quote", "urllib.parse.quote_plus", "urllib.parse.quote_from_bytes"):
+                continue
+        return None, f"{f.qualname}: the replacement text `{norm(txt)[:50]}` is neither a constant nor a percent-quoted text"
+    return True, f"{f.qualname} hands back percent-quoted (ASCII) text"
+
+
+def _extended_reach(eff: Effects, roots: list[FuncInfo]) -> dict[str, FuncInfo]:
+    """everything reachable from the entry points and from the constructors of the two Request classes (they decode the
+    CGI variables before any attribute is read)."""
+    repo = eff.repo
+    stack = list(roots)
+    for cfq in ("sansio.request.Request", "wrappers.request.Request"):
+        o, w = repo.lookup(repo.cls(cfq), "__init__")
+        if isinstance(w, FuncInfo):
+            stack.append(w)
+    out: dict[str, FuncInfo] = {}
+    while stack:
+        f = stack.pop()
+        if f.fq in out:
+            continue
+        out[f.fq] = f
+        stack.extend(g for g, _ in eff.callees(f))
+    return out
+
+
+def _decode_sites(eff: Effects, f: FuncInfo) -> list[tuple[ast.Call, str | None, ast.AST | None, str]]:
+    """(call, encoding or None when not constant, errors expression or None when left out, default handler) for every
+    operation in f that makes text from bytes / percent-escapes under an errors handler."""
+    out = []
+    li = f.module.local_imports(f.node)
+    for c in walk_no_nested(f.node):
+        if not isinstance(c, ast.Call):
+            continue
+        dyn = any(k.arg is None for k in c.keywords) or any(isinstance(a, ast.Starred) for a in c.args)
+        cc = codec_call(c)
+        d = dotted(c.func)
+        fq = eff.repo.resolve(f.module, d, li) if d else None
+        if cc is not None and cc[0] == "decode":
+            if isinstance(c.func, ast.Attribute) and fq and fq.startswith("werkzeug."):
+                continue
+            err = astq.arg_or_kw(c, 1, "errors") if isinstance(c.func, ast.Attribute) else astq.arg_or_kw(c, 2, "errors")
+            if dyn and err is None:
+                raise AnalysisError(f"C07 R7.3: {f.qualname}: `{norm(c)[:60]}` passes its arguments by unpacking: the errors handler is not known")
+            out.append((c, cc[2], err, "strict"))
+        elif fq in TEXT_DECODERS:
+            pos, default = TEXT_DECODERS[fq]
+            err = astq.arg_or_kw(c, pos, "errors")
+            if dyn and err is None:
+                raise AnalysisError(f"C07 R7.3: {f.qualname}: `{norm(c)[:60]}` passes its arguments by unpacking: the errors handler is not known")
+            out.append((c, None if fq != "codecs.decode" else "?", err, default))
+    return out
+
+
+def _r73_surrogates(ctx: Ctx, eff: Effects, texts: "_Texts", registered_fn: dict) -> t.Callable:
+    """the value of the errors handler at every decode: none that plants lone surrogates into a text (the premise under
+    which R7.1's model takes `str.encode()` to UTF-8 and the stdlib's quote() for total)."""
     repo = ctx.repo
+    reach = texts.reach
+    verdict_cache: dict[str, tuple[bool | None, str]] = {}
+
+    def handler_ok(h: str) -> tuple[bool | None, str]:
+        if h not in verdict_cache:
+            if h == "strict":
+                verdict_cache[h] = (True, "strict: raises instead (R7.1 asks for a handler)")
+            elif h in DECODE_CLEAN:
+                verdict_cache[h] = (True, f"{h!r} puts no surrogate into the text")
+            elif h in SURROGATE_MAKERS:
+                verdict_cache[h] = (False, f"{h!r} turns undecodable bytes into lone surrogates (U+DC80..U+DCFF): the text can no longer be encoded as UTF-8 - str.encode() / urllib.parse.quote() of it raise UnicodeEncodeError")
+            elif h in ("xmlcharrefreplace", "namereplace"):
+                verdict_cache[h] = (False, f"{h!r} handles encoding errors only: the first undecodable byte raises TypeError")
+            else:
+                okh, why = _handler_replacement_clean(repo, registered_fn, h)
+                verdict_cache[h] = (okh, f"{h!r}: {why}") if okh is not None or h in registered_fn else (False, f"{h!r} is not a codecs errors handler known to CPython or registered by the package: the first undecodable byte raises LookupError")
+        return verdict_cache[h]
+
+    n = 0
+    for fq in sorted(reach):
+        f = reach[fq]
+        for c, enc, err, default in _decode_sites(eff, f):
+            if enc in LATIN1:
+                continue  # every byte decodes: the handler is never asked
+            vals = {default} if err is None else texts.of(f, err, c)
+            if vals is None:
+                raise AnalysisError(f"C07 R7.3: {f.qualname}: the errors handler `{norm(err)[:40]}` of `{norm(c)[:60]}` is not a known finite set of constant texts")
+            n += 1
+            res = [(h, *handler_ok(h)) for h in sorted(vals)]
+            unknown = [(h, why) for h, okh, why in res if okh is None]
+            bad = [(h, why) for h, okh, why in res if okh is False]
+            if unknown and not bad:
+                raise AnalysisError(f"C07 R7.3: {f.qualname}: `{norm(c)[:60]}`: {unknown[0][1]}")
+            recv = norm(c.func.value)[:40] if isinstance(c.func, ast.Attribute) and c.func.attr == "decode" else norm(c.func)[:40]
+            ctx.ob("R7.3", f"{f.qualname}: the errors handler that reaches `{norm(c)[:50]}` puts no lone surrogate into the text", not bad,
+                   "; ".join(why for _, why in bad) or f"handler value(s) {sorted(vals)}: " + "; ".join(why for _, _, why in res), f, c, f"{f.fq} decode of {recv} surrogate-free")
+    ctx.floor("R7.3", "decoding operations under an errors handler on the request path", n, 8)
+    return handler_ok
+
+
+def _r73(ctx: Ctx, eff: Effects, folder: Folder, registered: set[str], flow: Flow, texts: "_Texts", registered_fn: dict) -> None:
+    repo = ctx.repo
+    handler_ok = _r73_surrogates(ctx, eff, texts, registered_fn)
     for fq, kind, name in (("_internal._DictAccessorProperty.__get__", "attr", "load_func"), ("datastructures.structures.TypeConversionDict.get", "param", "type")):
         f = repo.func(fq)
         cs = _conversion_calls(f, kind, name)
@@ -513,5 +1071,14 @@ def _r73(ctx: Ctx, eff: Effects, folder: Folder, registered: set[str]) -> None:
     decs = [cc for cc in (codec_call(c) for c in astq.calls(dd.node)) if cc is not None and cc[0] == "decode"]
     if not decs:
         raise AnalysisError("C07 R7.3: no decoding operation found in _wsgi_decoding_dance")
-    ok = all(cc[3] in eff.handlers_ok - {"ignore"} or cc[2] in ("latin1", "latin-1", "iso-8859-1") for cc in decs)
-    ctx.ob("R7.3", "_wsgi_decoding_dance decodes with errors='replace'", ok, f"{[(norm(cc[1])[:40], cc[2], cc[3]) for cc in decs]}", dd, dd.node, "decoding dance lenient")
+    seen_vals = []
+    ok = True
+    for c, enc, err, default in _decode_sites(eff, dd):
+        if enc in LATIN1:
+            seen_vals.append((norm(c)[:40], enc, "any"))
+            continue
+        vals = {default} if err is None else texts.of(dd, err, c)
+        seen_vals.append((norm(c.func.value if isinstance(c.func, ast.Attribute) else c.args[0])[:40], enc, sorted(vals) if vals is not None else None))
+        # lenient and harmless: a handler that neither raises nor plants lone surrogates (value of the handler, not its spelling)
+        ok = ok and vals is not None and all(h != "strict" and handler_ok(h)[0] is True for h in vals)
+    ctx.ob("R7.3", "_wsgi_decoding_dance decodes with errors='replace'", ok, f"{seen_vals}", dd, dd.node, "decoding dance lenient")
